@@ -105,8 +105,19 @@ Definition agrees (fr : fres) (r : res value) : Prop :=
   end.
 
 (* ---------------------------------------------------------------- one integer arm *)
-Lemma fixed_int_fold : forall t o x y, fixed_int t o x y = or_bail (fold_int_fn FixedF t o x y).
-Proof. intros t o x y. destruct o; reflexivity. Qed.
+(* the folder's checked operation and the run-time operation: same value, or both fail
+   (the folder rejects, the run time panics) *)
+Lemma fixed_int_fold : forall t o x y,
+  match fold_int_fn FixedF t o x y with
+  | Some z => fixed_int t o x y = Ok z
+  | None => is_failure (fixed_int t o x y)
+  end.
+Proof.
+  intros t o x y. destruct o; cbn [fold_int_fn fixed_int]; unfold checked, expect, checked_div, exact_rem, rust_div, wrapping_rem.
+  1-3: match goal with |- context [in_range ?tt ?e] => destruct (in_range tt e) end; cbn; auto.
+  - destruct (y =? 0); cbn; auto. destruct (min_by_m1 t x y); cbn; auto.
+  - destruct (y =? 0); cbn; auto.
+Qed.
 
 Lemma fold_int_zero : forall t o x, is_divlike o = true -> fold_int_fn FixedF t o x 0 = None.
 Proof. intros t o x H. destruct o; try discriminate; reflexivity. Qed.
@@ -116,7 +127,8 @@ Lemma fold_int_range : forall t o x y z,
   fold_int_fn FixedF t o x y = Some z -> in_range t z = true.
 Proof.
   intros t o x y z Hx Hy H.
-  pose proof (fixed_int_ok t o x y Hx Hy) as M. rewrite fixed_int_fold, H in M. cbn [or_bail] in M.
+  pose proof (fixed_int_ok t o x y Hx Hy) as M. pose proof (fixed_int_fold t o x y) as F.
+  rewrite H in F. rewrite F in M.
   unfold int_spec in M.
   destruct (is_divlike o && (y =? 0)); [contradiction|].
   destruct (in_range t (exact_Z o x y)) eqn:E; [|contradiction].
@@ -139,14 +151,17 @@ Lemma int_arm_agrees : forall t (inj_n : txt -> number) (inj_v : Z -> value) o t
          (if is_divlike o && g then Err else lift inj_v (fixed_int t o za zb)).
 Proof.
   intros t inj_n inj_v o ta tb za zb g Ha Hb Ra Rb Hg Hgood.
-  rewrite (cm_checked_canon (P_ity t) (P_ity t) _ _ _ za zb Ha Hb Ra Rb), fixed_int_fold.
+  rewrite (cm_checked_canon (P_ity t) (P_ity t) _ _ _ za zb Ha Hb Ra Rb).
+  pose proof (fixed_int_fold t o za zb) as F.
   destruct (is_divlike o) eqn:Ed; cbn [andb].
   - destruct g.
     + rewrite (Hg eq_refl), (fold_int_zero t o za Ed). exact I.
-    + destruct (fold_int_fn FixedF t o za zb) eqn:E; cbn [opt_num agrees or_bail lift is_failure]; [|exact I].
-      eexists. split; [apply Hgood; apply (fold_int_range t o za zb z Ra Rb E) | reflexivity].
-  - destruct (fold_int_fn FixedF t o za zb) eqn:E; cbn [opt_num agrees or_bail lift is_failure]; [|exact I].
-    eexists. split; [apply Hgood; apply (fold_int_range t o za zb z Ra Rb E) | reflexivity].
+    + destruct (fold_int_fn FixedF t o za zb) eqn:E; cbn [opt_num agrees].
+      * rewrite F. eexists. split; [apply Hgood; apply (fold_int_range t o za zb z Ra Rb E) | reflexivity].
+      * destruct (fixed_int t o za zb); cbn in *; auto.
+  - destruct (fold_int_fn FixedF t o za zb) eqn:E; cbn [opt_num agrees].
+    + rewrite F. eexists. split; [apply Hgood; apply (fold_int_range t o za zb z Ra Rb E) | reflexivity].
+    + destruct (fixed_int t o za zb); cbn in *; auto.
 Qed.
 
 Lemma flt_arm_agrees : forall o x y a b (g : bool),
@@ -311,10 +326,10 @@ Proof.
   intros n v H. destruct n as [t|t|t|t], v as [z|z|z|f|b]; cbn [good] in H; try contradiction;
   unfold negate_num, negate, neg_int.
   - destruct H as [C R]. rewrite (parse_as_canon _ _ _ C). cbn [p_in_range]. rewrite R.
-    unfold checked. destruct (in_range I32 (- z)) eqn:E; cbn [or_bail lift is_failure]; [|exact I].
+    unfold checked. destruct (in_range I32 (- z)) eqn:E; cbn [expect lift is_failure]; [|exact I].
     exists (Int (- z)). split; [apply good_int; exact E | reflexivity].
   - destruct H as [C R]. rewrite (parse_as_canon _ _ _ C). cbn [p_in_range]. rewrite R.
-    unfold checked. destruct (in_range I128 (- z)) eqn:E; cbn [or_bail lift is_failure]; [|exact I].
+    unfold checked. destruct (in_range I128 (- z)) eqn:E; cbn [expect lift is_failure]; [|exact I].
     exists (Big (- z)). split; [apply good_big; exact E | reflexivity].
   - exists (Flt (F_neg f)). split; [|reflexivity]. cbn [good].
     destruct t as [g|g|t']; cbn [parse_f f_leading_minus] in *.
@@ -395,7 +410,8 @@ Proof.
 Qed.
 
 (* ================================================================ the ORIGINAL folder: real disagreements
-   (each reproduced on the real binary; repaired by fixes/fold-negate.diff and fixes/num-checked-arithmetic.diff) *)
+   (each reproduced on the real binary; repaired by fixes/fold-negate.diff, fixes/num-byte-zero-divisor.diff
+   and fixes/num-rem-min-by-minus-one.diff) *)
 Definition e_neg_big := ENeg (ENum (NBigInt (Src 5))).                                   (* -B5 *)
 Definition e_neg_neg := ENeg (ENeg (ENum (NInteger (Src 5)))).                           (* -(-5) *)
 Definition e_flt_byte0 := EBin (Arith Div) (ENum (NFloat (FSrc (F_of_Z 3)))) (ENum (NByte (Src 0))).   (* 3.0 / 0b0 *)
